@@ -660,6 +660,8 @@ class _AbstractSampler(_ABC):
                                 # If accepted, switch models
                                 pipe.send([self.current_model])
                                 self.current_model = exchange_model.copy()
+                                # ... and carry the misfit of the new state
+                                self.current_x = exchange_x
                             else:
                                 # If not accepted, send the exchanged model back to
                                 # other chain, effectively not switching.
@@ -676,6 +678,11 @@ class _AbstractSampler(_ABC):
                             pipe.send([misfit_improvement])
 
                             (self.current_model,) = pipe.recv()
+
+                            # If the states were swapped, carry the misfit of the new
+                            # state (already computed above)
+                            if _numpy.array_equal(self.current_model, exchange_model):
+                                self.current_x = exchange_x
 
                 # --------------------------------------------
 
